@@ -60,7 +60,37 @@ def learned_keys():
     return sorted(keys - KNOWN_KEYS)
 
 
+def learned_types():
+    """command types the CURRENT handler source dispatches on beyond the documented nine: string constants compared
+    with == / in, or used as keys of a dict literal, in server_websocket.py"""
+    import ast, os
+    path = os.path.join(WORLD.REPO_SRC, "wormhole_mailbox_server", "server_websocket.py")
+    try:
+        tree = ast.parse(open(path).read())
+    except Exception:
+        return []
+    out = set()
+    for node in ast.walk(tree):
+        if isinstance(node, ast.Compare):
+            for c in [node.left] + list(node.comparators):
+                if isinstance(c, ast.Constant) and isinstance(c.value, str):
+                    out.add(c.value)
+                if isinstance(c, (ast.Tuple, ast.List, ast.Set)):
+                    for e in c.elts:
+                        if isinstance(e, ast.Constant) and isinstance(e.value, str):
+                            out.add(e.value)
+        elif isinstance(node, ast.Dict):
+            for k in node.keys:
+                if isinstance(k, ast.Constant) and isinstance(k.value, str):
+                    out.add(k.value)
+    known = set(WORLD.KNOWN_TYPES) | KNOWN_KEYS | {"welcome", "ack", "pong", "error", "nameplates", "allocated", "claimed",
+                                                  "released", "closed", "message", "server_tx", "server_rx", "orig", "pruney",
+                                                  "crowded", "happy", "lonely", "scary", "errory", "quiet"}
+    return sorted(t for t in out - known if t and len(t) < 40)
+
+
 LEARNED_KEYS = learned_keys()
+LEARNED_TYPES = learned_types()
 LEARNED_VALUES = [True, False, 0, 1, 1.5, -1, "x", "last-time", None, [], {}, 10 ** 12]
 
 
@@ -323,7 +353,7 @@ class Session(object):
         if x < 0.15:
             return {"id": "noty"}                      # no type
         if x < 0.3:
-            return {"type": r.choice(["___", "CLAIM", "subscribe", ""])}
+            return {"type": r.choice(["___", "CLAIM", "subscribe", ""] + LEARNED_TYPES)}
         kind = r.choice(["bind", "allocate", "claim", "release", "open", "add", "close", "list", "ping"])
         msg = self.make_cmd(kind, info, wellformed=False)
         if r.random() < 0.5:
